@@ -91,13 +91,17 @@ int main(int argc, char **argv)
                     for(char t : ts) { rtosc_arg_val_t x; memset(&x, 0, sizeof x); x.type = t; if(ref::has_data(t)) x.val = ra[k++]; else if(t == 'T') x.val.T = 1; av.push_back(x); }
                     all_caps("rtosc_avmessage", [&](char *b, size_t len) { return rtosc_avmessage(b, len, addr.c_str(), av.size(), av.data()); }, expect, cid, shape);
                 }
-                // NULL buffer: returns the size a large enough buffer receives
-                vp::transition();
-                size_t need = rtosc_amessage(nullptr, 0, addr.c_str(), ts.c_str(), ra.data());
-                if(need != expect.size()) vp::violation("null-buffer-size|rtosc_amessage|" + shape, cid, "reports " + std::to_string(need) + ", encoding has " + std::to_string(expect.size()));
+                // NULL buffer: returns the size a large enough buffer receives - whatever length is passed along with it
+                for(size_t nl : {size_t(0), expect.size() > 0 ? expect.size() - 1 : 0, expect.size(), expect.size() + 8, size_t(1) << 20, (size_t)-1}) {
+                    size_t need = 0;
+                    int sg = guard::guarded([&] { need = rtosc_amessage(nullptr, nl, addr.c_str(), ts.c_str(), ra.data()); });
+                    vp::transition();
+                    if(sg) { vp::violation("access-outside-buffer|rtosc_amessage|null-buffer-with-length," + shape, cid, "fault (signal " + std::to_string(sg) + ") for the size query (NULL, " + std::to_string(nl) + ")"); break; }
+                    if(need != expect.size()) { vp::violation("null-buffer-size|rtosc_amessage|" + shape, cid, "(NULL, " + std::to_string(nl) + ") reports " + std::to_string(need) + ", encoding has " + std::to_string(expect.size())); break; }
+                }
                 if(!snan && n <= 4) {
                     vp::transition();
-                    need = call_varargs(nullptr, 0, addr.c_str(), ts.c_str(), c, n);
+                    size_t need = call_varargs(nullptr, 0, addr.c_str(), ts.c_str(), c, n);
                     if(need != expect.size()) vp::violation("null-buffer-size|rtosc_message|" + shape, cid, "reports " + std::to_string(need) + ", encoding has " + std::to_string(expect.size()));
                 }
             }
